@@ -7,6 +7,7 @@ shared sim engine, see simcheck)."""
 import random
 import re
 import gen
+import histgen
 import lib
 import simcheck
 
@@ -56,7 +57,47 @@ def trace_part(report, rng, tier):
                 report.violation("trace-bytes", "cycle %d: pc=%x shows pc=%s bytes %s, memory holds %s" % (k, pc, m.group(1), m.group(2), bytes(want).hex()), rep)
             if (b0 >> 4) > 11 and m.group(3) != "<invalid>":
                 report.violation("trace-invalid-not-marked", "opcode byte %02x not marked invalid" % b0, rep)
-    return len(cases), lines_checked
+    # self-modifying code: the pc revisits a few addresses while the data port stores new
+    # instruction bytes there; every line must show the bytes memory holds when the cycle starts
+    n2 = 25 if tier == "quick" else 400
+    cases2 = {}
+    for i in range(n2):
+        k = rng.choice([1, 2, 3])
+        opc = [0x00, 0x10, 0x20, 0x30, 0x40, 0x50, 0x60, 0x61, 0x64, 0x70, 0x76, 0x80, 0x90, 0xA0, 0xB0, 0xC0, 0xFF]
+        hcl = "\n".join([
+            "register pP { slot : 64 = 0; }", "register cC { n : 64 = %d; }" % rng.getrandbits(64),
+            "c_n = (C_n * 6364136223846793005) + 1442695040888963407;",
+            "p_slot = [ P_slot == %d : 0; 1 : P_slot + 1 ];" % (k - 1),
+            "pc = (P_slot * 16) + 32;",
+            "mem_addr = (((C_n >> 8) & %d) * 16) + 32 + ((C_n >> 16) & %d);" % (3, rng.choice([0, 1, 3, 15])),
+            "mem_writebit = (C_n)[40..41] | (C_n)[41..42];", "mem_readbit = 0;",
+            "mem_input = [ (C_n)[50..51] : C_n; 1 : %s ];" % " | ".join("(0x%x << %d)" % (rng.choice(opc), 8 * j) for j in range(8)),
+            "Stat = STAT_AOK;"]) + "\n"
+        img = bytes(rng.choice(opc) if j % 16 == 0 else rng.getrandbits(8) for j in range(96))
+        yo = "\n".join(gen.yo_line(32 + j, img[j:j + 8]) for j in range(0, len(img), 8)) + "\n"
+        cases2["m%d" % i] = {"hcl": hcl, "yo": yo, "cycles": 20, "flags": rng.choice(["-", "-", "d", "t"]), "timeout": 9999}
+    impl2, model2, stats2 = simcheck.run_sim_cases(report, cases2, key_prefix="trace-selfmod")
+    for cid in cases2:
+        init, cyc = histgen.parse_trace(impl2.get(cid, []))
+        memv = dict(init.get("mem", {}))
+        for kk, c in enumerate(cyc):
+            if "post" not in c:
+                break
+            pc = c["post"]["pc"][0]
+            m = re.search(r"^pc = 0x([0-9a-f]+); loaded \[((?:[0-9a-f]{2} )*): (.*)\]$", c.get("out", ""), re.M)
+            rep = {"case": cases2[cid], "cycle": kk, "out": c.get("out", "")[:300]}
+            if not m:
+                report.violation("trace-line-missing", "cycle %d: no trace line" % kk, rep)
+                break
+            b0 = memv.get(pc, 0)
+            want = [memv.get((pc + j) & ((1 << 64) - 1), 0) for j in range(LEN.get(b0 >> 4, 1))]
+            got = [int(x, 16) for x in m.group(2).split()]
+            lines_checked += 1
+            if int(m.group(1), 16) != pc or got != want:
+                report.violation("trace-bytes-stale", "cycle %d: pc=%x shows bytes %s, memory holds %s at the start of the cycle" % (kk, pc, m.group(2), bytes(want).hex()), rep)
+                break
+            memv = dict(c.get("mem", memv))
+    return len(cases) + len(cases2), lines_checked
 
 
 def check(report, tier, seed):
